@@ -126,6 +126,30 @@ pub fn finish<H: Harness>(
             }
         }
     }
+    if r.found.is_none() {
+        if let Some(f) = r.unreproducible.first() {
+            // nothing fails on its own, but something failed in the course of the batch
+            violations = 1;
+            eprintln!(
+                "note: {} violation(s) were seen that do not fail on their own in a fresh process (first: {} {})",
+                r.unreproducible.len(),
+                f.v.signature(),
+                f.v.detail
+            );
+            match sequence_fallback(h, id, tier == "thorough", seed, f, r.n_pre, &vd.join("replays")) {
+                Ok((p, v)) => {
+                    println!("violation: {} [{}] {}", v.property, v.clause, v.detail);
+                    println!("VIOLATION property={} replay={}", v.property, p.display());
+                    replay_path = Some(p);
+                    code = 1;
+                }
+                Err(e) => {
+                    eprintln!("harness error: a violation was seen but cannot be reproduced, neither on its own nor as a sequence of runs in a fresh process: {e}");
+                    return 2;
+                }
+            }
+        }
+    }
     for (p, what) in &r.known_hits {
         println!("KNOWN-FINDING: property={} {}", p, what);
     }
